@@ -265,9 +265,23 @@ def build_corpus(seed: int, n_templates: int, max_bytes: int) -> List[Dict[str, 
             text = "\n\n".join(blocks) + "\n"
             if len(text.encode("utf8")) <= max_bytes:
                 docs.append((label, text))
+    # siblings: near-identical documents (same table and type names) that differ in one aspect, so that
+    # cross-talk between parses of *similar* documents shows as silently wrong content, not as an error
+    for name, text in list(docs):
+        if not name.startswith("tmpl"):
+            continue
+        no_enum = re.sub(r"(?:// enum comment\n)?Enum [^{]*\{\n[\s\S]*?\n\}\n*", "", text)
+        if no_enum != text and no_enum.strip():
+            docs.append((name + "~noenum", no_enum))
+        retyped = re.sub(r"\bint\b", "bigint", text)
+        if retyped != text:
+            docs.append((name + "~bigint", retyped))
+        renamed = re.sub(r"\bt0\b", "t0x", text)
+        if renamed != text and rng.random() < 0.5:
+            docs.append((name + "~t0x", renamed))
     docs.append(("empty", ""))
     docs.append(("only-comment", "// nothing here\n"))
-    base = list(docs)
+    base = [d for d in docs if "~" not in d[0]]
     for name, text in base:
         vs = failing_variants(rng, name, text)
         rng.shuffle(vs)
